@@ -6,6 +6,7 @@ import (
 	"github.com/CloudyKit/jet/v6"
 	"math"
 	"reflect"
+	"sort"
 	"strconv"
 	"strings"
 )
@@ -135,6 +136,16 @@ func (r *PlainRanger) Range() (reflect.Value, reflect.Value, bool) {
 	return reflect.Value{}, v, false
 }
 func (r *PlainRanger) ProvidesIndex() bool { return false }
+
+// PanicStringer is a fmt.Stringer whose String method fails.
+type PanicStringer struct{}
+
+func (PanicStringer) String() string { panic(errors.New("String() gave up")) }
+
+// CountMap is a map type that is a fmt.Stringer.
+type CountMap map[string]int
+
+func (c CountMap) String() string { return "countmap" }
 
 // Sink is a send-only channel type with a method.
 type Sink chan<- string
@@ -396,6 +407,23 @@ func Build(r Recipe) interface{} {
 		return struct{ F func(string) string }{}
 	case "arr4func": // the slice it is handed must have four elements to convert
 		return func(p *[4]int) int { return p[0] }
+	case "hetero": // rangers of different kinds in one list (I rotates it)
+		ch := make(chan int, 2)
+		ch <- 7
+		ch <- 8
+		close(ch)
+		l := []interface{}{[]int{10, 20}, ch, &PlainRanger{Items: []string{"p", "q"}}, map[string]int{"k": 1}, &IdxRanger{Items: []string{"i0"}}, [2]string{"a0", "a1"}, (<-chan int)(ch)}
+		l[6] = func() <-chan int { c := make(chan int, 1); c <- 9; close(c); return c }()
+		n := int(r.I) % len(l)
+		return append(append([]interface{}{}, l[n:]...), l[:n]...)
+	case "iface-holder": // collections in slots of interface types that have methods / behind a pointer to an interface
+		var any interface{} = []int{4, 5}
+		return struct {
+			Sorted sort.Interface
+			PAny   *interface{}
+			Counts fmt.Stringer
+			Empty  sort.Interface
+		}{Sorted: sort.StringSlice{"b", "a"}, PAny: &any, Counts: CountMap{"n": 2}, Empty: sort.IntSlice{}}
 	case "nilok-ranger": // without elements: the typed nil pointer itself
 		if len(r.Ss) == 0 {
 			return (*NilOKRanger)(nil)
@@ -410,6 +438,17 @@ func Build(r Recipe) interface{} {
 		return struct{ R jet.Ranger }{}
 	case "chan<- int":
 		return (chan<- int)(make(chan int, 1))
+	case "unexported-string": // (the engine runner puts the field Value itself into the VarMap; for the model it is the string)
+		return r.S
+	case "reflect-value": // a reflect.Value as a value (helpers for templates that want Kind() / Len() hand such things around)
+		return reflect.ValueOf([]int{1, 2})
+	case "panic-stringer":
+		return PanicStringer{}
+	case "nil-ifaces": // slots of interface types that have methods, with nothing in them
+		return struct {
+			Err error
+			S   fmt.Stringer
+		}{}
 	case "*chan<- int": // the same behind a pointer
 		c := (chan<- int)(make(chan int, 1))
 		return &c
